@@ -46,6 +46,17 @@ def r1(ctx, F):
     fl = flow_of(b)
     cfg = fl.cfg
     somes = ok_assign_blocks(b, 'Some')
+    via_ok = False
+    if not somes:
+        # `inspect(..).map_err(report).ok()`: the accepted archive is built as Ok(archive) and turned into Some by `.ok()`
+        rets = [(rb, kind, data) for rb, kind, data in ret_defs(b)]
+        if rets and all(kind == 'call' and callee(data) == 'std::result::Result::<T, E>::ok' for rb, kind, data in rets):
+            for rb, kind, data in rets:
+                for o in fl.origins(data['args'][0]):
+                    # the Ok(..) values that reach `.ok()` (a re-wrapped parse result earlier in the chain is not one)
+                    if o.kind == 'agg' and str(o.key).endswith('::Ok') and o.bb is not None and o.bb not in somes:
+                        somes.append(o.bb)
+                        via_ok = True
     if not somes:
         ctx.missing('C07.R1', 'Archive::load has no Some return')
     reads = fl.calls(lambda c: c in tables.FS_READERS)
@@ -80,7 +91,7 @@ def r1(ctx, F):
         # the returned archive is the parsed one, parsed from the bytes read from `path`
         ret_o = set()
         for st in b.blocks[sb]['stmts']:
-            if st['dst']['l'] == 0 and st['rv']['k'] == 'agg':
+            if (st['dst']['l'] == 0 or (via_ok and st['rv'].get('vname') == 'Ok')) and st['rv']['k'] == 'agg':
                 for o in st['rv']['ops']:
                     ret_o |= fl.origins(o)
         c_flow = bool(ret_o) and all(o.kind == 'call' and o.key.startswith('serde_json::from_') for o in ret_o)
